@@ -1,7 +1,7 @@
 (* C15 -- pinned statements only (generated once by tools/pin.py from `Check`, then fixed); proofs in EbrConserveP.v *)
 From Coq Require Import ZArith List Bool Lia Arith.
 Import ListNotations.
-Require Import Params Ebr EbrP EbrConserveP.
+Require Import Params Ebr EbrP EbrConserveP EbrDrainP.
 Local Open Scope Z_scope.
 
 Theorem C15_micro_conserves :
@@ -121,3 +121,34 @@ Theorem C15_drain :
 Proof. exact EbrConserveP.C15_drain. Qed.
 Print Assumptions C15_drain.
 
+(* ---- progress for deferred functions whose bodies defer again (EbrDrainP.v): nesting depth d (depth_le: bodies made of
+   defer, flush and balanced pin/unpin, repin only under a body-level pin), no bag overflow (capacity hypothesis), a number of
+   rounds linear in the queue length (rbound); the flat theorem C15_drain is the instance d = 0 *)
+Theorem C15_drain_nested :
+  forall (s : state) (t : nat) (l : local) (k d : nat),
+       WF s ->
+       getl s t = Some l ->
+       (forall p : nat,
+        In p (registry s) -> p <> t -> exists lp : local, getl s p = Some lp /\ pinned lp = false) ->
+       (forall (p : nat) (lp : local), getl s p = Some lp -> p <> t -> local_ids lp = []) ->
+       (qsz (sealed s) + wsz (bag l) + TR * (qfl (sealed s) + wfl (bag l) + 1) <= cap s)%nat ->
+       frames l = [FOp] ->
+       prog l = rounds k ->
+       pinned l = false ->
+       gcnt l = 0%nat ->
+       collecting l = false ->
+       Forall (depth_le d) (bag l) ->
+       Forall (fun bq : Z * list def => Forall (depth_le d) (snd bq)) (sealed s) ->
+       Forall (fun bq : Z * list def => fst bq <= G s) (sealed s) ->
+       (rbound (S d) (length (sealed s) + qfl (sealed s) + wfl (bag l)) <= k)%nat ->
+       exists n : nat,
+         held_ids (miter n s t) = [] /\ Permutation.Permutation (ran (miter n s t)) (state_ids s).
+Proof. exact EbrDrainP.C15_drain_nested. Qed.
+Print Assumptions C15_drain_nested.
+
+Theorem C15_drain_nested_example :
+  exists n : nat,
+         held_ids (miter n NestedDemo.s8 0) = [] /\
+         Permutation.Permutation (ran (miter n NestedDemo.s8 0)) [1; 2; 3; 4].
+Proof. exact EbrDrainP.NestedDemo.nested_demo. Qed.
+Print Assumptions C15_drain_nested_example.
